@@ -241,3 +241,71 @@ func concurrentMemoryStore(r *Run) {
 		r.Dist["concurrent-history-linearizable"]++
 	}
 }
+
+// concurrentExpiredReads: a session that has outlived its idle (or absolute) limit is presented by several requests AT THE
+// SAME TIME. Whatever the store does internally (per-session locks, touching before judging, lazy removal), none of the
+// overlapping reads may return the session's data: "never honoured later than last use + idle" has no exception for a
+// request that arrives while another one is busy discarding the session.
+func concurrentExpiredReads(r *Run, tag string) {
+	rounds := 120
+	if r.thorough() {
+		rounds = 3000
+	}
+	toks, auths := tokPool(), authPool()
+	limits := [][2]time.Duration{{0, 2 * time.Second}, {10 * time.Second, 2 * time.Second}, {3 * time.Second, 0}, {3 * time.Second, 30 * time.Second}}
+	for round := 0; round < rounds && r.unknownViolations() == 0; round++ {
+		lim := limits[round%len(limits)]
+		var nowNs int64 = 1_700_000_000_000_000_000
+		var calls int64
+		clock := &oidc.Clock{NowFn: func() time.Time {
+			// the clock is the store's only call-out: yielding here widens every window between "looked" and "acted"
+			if atomic.AddInt64(&calls, 1)%2 == 0 {
+				time.Sleep(40 * time.Microsecond)
+			} else {
+				runtime.Gosched()
+			}
+			return time.Unix(0, atomic.LoadInt64(&nowNs)).UTC()
+		}}
+		store := oidc.NewMemoryStore(clock, lim[0], lim[1])
+		ctx := context.Background()
+		must(store.SetTokenResponse(ctx, "c", toks[0]))
+		must(store.SetAuthorizationState(ctx, "c", auths[0]))
+		wait := lim[1]
+		if wait == 0 || (lim[0] != 0 && lim[0] < wait) {
+			wait = lim[0]
+		}
+		atomic.AddInt64(&nowNs, int64(wait+time.Second))
+		var wg sync.WaitGroup
+		var bad int64
+		var what atomic.Value
+		start := make(chan struct{})
+		for g := 0; g < 8; g++ {
+			wg.Add(1)
+			go func(g int) {
+				defer wg.Done()
+				<-start
+				for k := 0; k < 3; k++ {
+					if (g+k)%2 == 0 {
+						if t, err := store.GetTokenResponse(ctx, "c"); err == nil && t != nil {
+							atomic.AddInt64(&bad, 1)
+							what.Store("GetTokenResponse")
+						}
+					} else {
+						if a, err := store.GetAuthorizationState(ctx, "c"); err == nil && a != nil {
+							atomic.AddInt64(&bad, 1)
+							what.Store("GetAuthorizationState")
+						}
+					}
+				}
+			}(g)
+		}
+		close(start)
+		wg.Wait()
+		r.Case(fmt.Sprintf("conc-expired-%d", round))
+		r.Dist["concurrent-expired-reads"]++
+		if bad > 0 {
+			r.Violate(tag+" a session that had outlived its timeouts was honoured when several requests presented it at the same time (concurrent reads of the in-memory store)",
+				map[string]any{"absolute": lim[0].String(), "idle": lim[1].String(), "presented_after": (wait + time.Second).String(), "reads_that_returned_data": bad, "first_method": what.Load(), "round": round})
+		}
+	}
+}
